@@ -4,6 +4,7 @@ import (
 	"go/constant"
 	"go/token"
 	"go/types"
+	"strconv"
 	"strings"
 
 	"golang.org/x/tools/go/ssa"
@@ -258,28 +259,36 @@ func runRegistry(a *Analyzer, r *Results) {
 			r.Check("K2.always", props("C15"), "CancelOlderThan always leaves the watermark at or above its argument (also when nothing is registered): no context can afterwards be issued for a superseded position", "CancelOlderThan", a.P.Pos(fn.Pos()), bad == "",
 				"a path reaches the return at "+bad+" without storing the watermark or finding it not older than the argument", "P")
 		}
-		// every cancel is followed by the delete of the same entry
-		for _, b := range fn.Blocks {
-			for _, in := range b.Instrs {
-				call, ok := in.(*ssa.Call)
-				if !ok || call.Call.StaticCallee() != nil || call.Call.IsInvoke() {
-					continue
-				}
-				if _, isB := call.Call.Value.(*ssa.Builtin); isB {
-					continue
-				}
-				okF := mustReach(call, func(i2 ssa.Instruction) bool {
-					c2, ok := i2.(*ssa.Call)
-					return ok && isBuiltin(c2, "delete")
-				})
-				// the loop continues: reaching the loop header again without a delete is a failure; approximate by same block
-				sameBlock := false
-				for _, i2 := range b.Instrs {
-					if c2, ok := i2.(*ssa.Call); ok && isBuiltin(c2, "delete") {
-						sameBlock = true
+		// every cancel is followed by the delete of the same entry (in CancelOlderThan or the helper of the registry that does it)
+		pairFns := []*ssa.Function{fn}
+		for _, g := range a.calleesOf(fn) {
+			if g.Signature.Recv() != nil && fn.Signature.Recv() != nil && typeShort(g.Signature.Recv().Type()) == typeShort(fn.Signature.Recv().Type()) {
+				pairFns = append(pairFns, g)
+			}
+		}
+		for _, pf := range pairFns {
+			for _, b := range pf.Blocks {
+				for _, in := range b.Instrs {
+					call, ok := in.(*ssa.Call)
+					if !ok || call.Call.StaticCallee() != nil || call.Call.IsInvoke() {
+						continue
 					}
+					if _, isB := call.Call.Value.(*ssa.Builtin); isB {
+						continue
+					}
+					okF := mustReach(call, func(i2 ssa.Instruction) bool {
+						c2, ok := i2.(*ssa.Call)
+						return ok && isBuiltin(c2, "delete")
+					})
+					// the loop continues: reaching the loop header again without a delete is a failure; approximate by same block
+					sameBlock := false
+					for _, i2 := range b.Instrs {
+						if c2, ok := i2.(*ssa.Call); ok && isBuiltin(c2, "delete") {
+							sameBlock = true
+						}
+					}
+					r.Check("K2.pair", pr, "cancel and delete of a superseded context come together", "CancelOlderThan", a.P.InstrPos(in), okF || sameBlock, "cancel without delete", "P")
 				}
-				r.Check("K2.pair", pr, "cancel and delete of a superseded context come together", "CancelOlderThan", a.P.InstrPos(in), okF || sameBlock, "cancel without delete", "P")
 			}
 		}
 	}
@@ -1076,19 +1085,32 @@ func runShutdown(a *Analyzer, r *Results) {
 	for _, id := range []string{"(*leanhelix.MainLoop).UpdateState", "(*leanhelix.MainLoop).HandleConsensusMessage"} {
 		fn := a.P.Func(id)
 		ok := false
-		for _, b := range fn.Blocks {
-			for _, in := range b.Instrs {
-				if sel, isSel := in.(*ssa.Select); isSel {
-					for _, st := range sel.States {
-						if st.Dir == types.RecvOnly && isCtxDone(st.Chan) {
-							ok = true
+		// (the select may sit in a helper of the main loop that the API method calls)
+		z8fns := []*ssa.Function{fn}
+		for _, g := range a.calleesOf(fn) {
+			if g.Signature.Recv() != nil && fn.Signature.Recv() != nil && typeShort(g.Signature.Recv().Type()) == typeShort(fn.Signature.Recv().Type()) {
+				z8fns = append(z8fns, g)
+			}
+		}
+		bare := false
+		for _, zf := range z8fns {
+			for _, b := range zf.Blocks {
+				for _, in := range b.Instrs {
+					if sel, isSel := in.(*ssa.Select); isSel {
+						for _, st := range sel.States {
+							if st.Dir == types.RecvOnly && isCtxDone(st.Chan) {
+								ok = true
+							}
 						}
 					}
-				}
-				if _, isSend := in.(*ssa.Send); isSend {
-					ok = false
+					if _, isSend := in.(*ssa.Send); isSend {
+						bare = true
+					}
 				}
 			}
+		}
+		if bare {
+			ok = false
 		}
 		r.Check("Z8", props("C16", "C14"), "the public API hands its input to the main loop in a select with the caller's ctx.Done() (it cannot block forever)", shortName(fn), a.P.Pos(fn.Pos()), ok, "no select with ctx.Done()", "X")
 	}
@@ -1615,7 +1637,6 @@ func runTimer(a *Analyzer, r *Results) {
 	}
 }
 
-
 // evalConcrete evaluates a term built from integer leaves, comparisons and boolean connectives.
 func evalConcrete(t *Term, env map[string]int) (int, bool) {
 	if v, ok := env[t.Key()]; ok {
@@ -1635,8 +1656,8 @@ func evalConcrete(t *Term, env map[string]int) (int, bool) {
 		case "false":
 			return 0, true
 		}
-		if n := atoi(t.Name); n >= 0 {
-			return n, true
+		if n, err := strconv.Atoi(t.Name); err == nil {
+			return n, true // (also negative constants: a three-way compare helper returning -1 / 0 / 1)
 		}
 		return 0, false
 	case "un":
